@@ -494,8 +494,10 @@ def _validate_event_connectivity(
             f"The following events are produced but never consumed: {names}"
         )
 
-    return (
-        InputRequiredEvent in produced_events or HumanResponseEvent in consumed_events
+    # Subclasses count: workflows normally declare their own InputRequiredEvent /
+    # HumanResponseEvent subclasses rather than using the base classes directly.
+    return any(issubclass(x, InputRequiredEvent) for x in produced_events) or any(
+        issubclass(x, HumanResponseEvent) for x in consumed_events
     )
 
 
